@@ -45,7 +45,7 @@ Intended == cfg.variant = "intended"
 Inv_C05 == Intended => C05Holds
 \* ... which the protocol as built (deferred closes, errors dropped) does NOT satisfy: this
 \* "invariant" is expected to be violated; TLC's counterexample is the defect (SaveIO_MC_asbuilt_cex.cfg)
-Inv_C05_AsBuilt == (cfg.variant = "asbuilt") => C05Holds
+Inv_C05_AsBuilt == (cfg.variant = "asbuilt" /\ ~cfg.closeFault) => C05Holds
 \* a failed write / create / close is never reported as success
 Inv_FaultReported == (Intended /\ st.ret = "nil") => ~st.failed
 \* no error is invented
